@@ -156,7 +156,9 @@ def gen_struct(r, kind, fn, names=NAMES):
         k = r.randint(1, 4)
         nm = r.sample(names, k)
         ax = [[n, r.choice([1, 2, 2, 3, 4])] for n in nm]
-        br = [n for n in nm if r.random() < 0.5] or [nm[0]]
+        br = [n for n in nm if r.random() < 0.5]
+        if not br and r.random() < 0.75:  # sometimes nothing is bracketed: the function must still run, with axis=()
+            br = [nm[0]]
         groups = []
         i = 0
         while i < k:
